@@ -762,16 +762,15 @@ def cem_noise_py(r):
     return max(r["a"] + t * r["b"], 0.0)
 
 def monitor_xu(cmd, step, r):
-    """spec predicates on one CrossEntropyMethod step, independent of the model"""
+    """spec predicates on one CrossEntropyMethod step (the post state is the one of the real step()), independent of the model"""
     n, lam, mu = r["n"], r["lam"], r["mu"]; w = "`%s` step %d: " % (cmd, step); bad = []
-    fits = [o[0] for o in r["off"]]
     srt = sorted(r["off"], key=lambda o: o[0])
     # ties matter only if they can change the elite or its order: a tie inside the first mu+1 ranks between different points
     r["ties"] = any(srt[i][0] == srt[i + 1][0] and srt[i][1] != srt[i + 1][1] for i in range(min(mu, lam - 1)))
-    if not r["same"]: bad.append(("xcor:step-differs", w + "CrossEntropyMethod::step differs from sampling + PenalizingEvaluator + ElitistSelection + counter++ + updateStrategyParameters + m_best = parents[0] with the same random numbers"))
+    twin = [] if r["same"] else [("xcor:step-differs", w + "CrossEntropyMethod::step differs from sampling + PenalizingEvaluator + ElitistSelection + counter++ + updateStrategyParameters + m_best = parents[0] with the same random numbers")]
     if r["post"] is None:
         if lam > mu: bad.append(("xcor:exception", w + "step throws although population size %d > selection size %d" % (lam, mu)))
-        return bad
+        return bad + twin
     if lam <= mu: bad.append(("xcor:no-exception", w + "ElitistSelection accepted population size %d <= selection size %d" % (lam, mu)))
     if not r["rinv"]: bad.append(("xcor:elite-not-rank-invariant", w + "ElitistSelection selects different individuals on 4*fitness"))
     post = r["post"]; noise = cem_noise_py(r)
@@ -779,10 +778,10 @@ def monitor_xu(cmd, step, r):
         bad.append(("xcor:value", w + "reported value %r != objective at the (closest feasible) reported point %r" % (post["best"], post["fchk"])))
     if not all(finite(v) and v >= noise for v in post["var"]):
         bad.append(("xcor:variance-below-noise", w + "updated variance %r has a component below the noise term %r" % (post["var"], noise)))
-    if bad or r["ties"]: return bad
+    if bad or r["ties"]: return bad + twin
     elite = srt[:mu]
     if (post["best"], post["bestpt"]) != (elite[0][0], elite[0][1]):
-        bad.append(("xcor:best", w + "reported solution is not the best-ranked sample"))
+        bad.append(("xcor:best", w + "reported solution (%r at %r) is not the best-ranked sample (%r at %r)" % (post["best"], post["bestpt"], elite[0][0], elite[0][1])))
     m = [sum(e[1][j] for e in elite) / mu for j in range(n)]
     if not xclose(m, post["mean"], 1e-11): bad.append(("xcor:mean", w + "new mean %r is not the average %r of the %d best samples" % (post["mean"], m, mu)))
     v = [sum((e[1][j] - m[j]) ** 2 for e in elite) / mu + noise for j in range(n)]
@@ -794,7 +793,7 @@ def monitor_xu(cmd, step, r):
             bad.append(("xcor:variance-zero-uncharacterised", w + "variance[%d] = 0 although noise = %r and the elite spreads over %r in that coordinate" % (j, noise, spread))); break
         if spread == 0.0 and noise == 0.0 and post["var"][j] > 1e-28 * max(sc * sc, 1e-300):
             bad.append(("xcor:variance-positive-on-identical-elite", w + "variance[%d] = %r although the elite agrees in that coordinate and the noise is 0" % (j, post["var"][j]))); break
-    return bad
+    return bad + twin
 
 
 # ------------------------------------------------------------------------------------------------ main
@@ -1261,7 +1260,8 @@ def main():
             if miss or sorted(looked) != sorted(p for _, p in r["evals"]): diff.append("evaluated points")
             if diff:
                 ndis += 1
-                if first is None: first = (cmd, st, diff, r, {"simplex": simplex, "best": best, "evaluated": looked})
+                if first is None or (n, st, len(cmd)) < (int(first[0].split()[1]), first[1], len(first[0])):
+                    first = (cmd, st, diff, r, {"simplex": simplex, "best": best, "evaluated": looked})
         # rank invariance on the implementation: the run on 4*f visits exactly the same simplices
         nri = 0
         for i in range(0, 2 * len(nms), 2):
@@ -1344,7 +1344,7 @@ def main():
                 else:
                     if anytie: stats["tied_fitness_compared"] += 1
                     for tag, res in (("update", ru), ("step", rs)):
-                        if tag == "step" and (not exact or len(set(tuple(o[1]) for o in r["off"])) < lam and anytie and False): continue
+                        if tag == "step" and not exact: continue      # the table oracle needs bit-exact samples (they are, see sampling_bit_exact)
                         if tag == "step" and res["miss"]: diff.append("step: sample not among the implementation's"); continue
                         if not xclose(res["mean"], r["post"]["mean"]): diff.append(tag + ":mean")
                         if not xclose(res["var"], r["post"]["var"]): diff.append(tag + ":variance")
